@@ -95,6 +95,27 @@ def compare(name, mod, ref, t, s, viols, stats, display=False):
     return 1
 
 
+def compare_presented(name, mod, ref, t, s, viols, stats):
+    """A human-readable spelling: the reference removes what its standard's display form allows."""
+    lib = C.short(C.outcome(mod.validate, s))
+    target = refs.ref_clean(name, s)
+    try:
+        rv, reason = ref(target, t)
+    except Exception as e:  # noqa: B902
+        rv, reason = None, 'reference-error-%s' % type(e).__name__
+    w = {'module': name, 's': s, 'presented': True}
+    if lib[0] == 'ok' or rv is not None:
+        stats['keys'].add(s)
+    if lib[0] == 'ok' and rv is None:
+        add(viols, 'C07|%s|library-accepts-standard-rejects|%s' % (name, reason),
+            '%s.validate(%r) = %r but the standard, reading it as %r, rejects it (%s)' % (name, s, lib[1], target, reason), w)
+    elif lib[0] != 'ok' and rv is not None:
+        add(viols, 'C07|%s|library-rejects-standard-accepts' % name, '%s.validate(%r) is rejected but the standard reads it as %r' % (name, s, rv), w)
+    elif lib[0] == 'ok' and lib[1] != rv:
+        add(viols, 'C07|%s|canonical-form-differs' % name, '%s.validate(%r) = %r, the standard\'s electronic form is %r' % (name, s, lib[1], rv), w)
+    return 1
+
+
 def neighbours(v, alphabet, rng, tier):
     n = len(v)
     out = []
@@ -151,6 +172,45 @@ def mod_work(name, tier, viols, stats, counters):
         if name == 'bitcoin':
             for y in (c.upper(), c.lower(), c.swapcase(), c[:4] + c[4:].upper(), c.capitalize(), ' ' + c, c + '\n'):
                 evals += compare(name, mod, ref, t, y, viols, stats)
+    # human-readable spellings: separators of the standard's display form anywhere, label variants in front
+    seps, labels = refs.PRESENTATION[name]
+    label_variants = []
+    for lab in labels:
+        core = lab.rstrip(':')
+        label_variants += [lab, lab.lower(), lab + ' ', core, core[::-1], core[1:], core[:1], core[:-1], lab + lab, core + ' ', ' '.join(core),
+                           core[1:] + core[:1], core.replace(core[0], core[-1])]
+    for c in canon[:20]:
+        ys = []
+        for _ in range(6):
+            p = rng.randrange(len(c) + 1)
+            ys.append(c[:p] + rng.choice(seps) + c[p:])
+        ys.append(rng.choice(seps).join(c))
+        ys.append(c.lower())
+        for lv in label_variants:
+            ys += [lv + c, lv + ' ' + c, lv + c[1:]]
+        for y in ys:
+            evals += compare_presented(name, mod, ref, t, y, viols, stats)
+            counters['presented_forms'] += 1
+    if name == 'bitcoin':
+        # addresses with a correct checksum over arbitrary data: the other rules (padding, version, lengths) decide
+        for _ in range(300 if tier == 'quick' else 5000):
+            ver = rng.choice((0, 0, 0, 1, 2, 16, 17, 31))
+            L = rng.choice((0, 1, 3, 4, 32, 33, 34, 35, 51, 52, 53, 54, 64, 65, 66, rng.randrange(1, 70)))
+            prog = [rng.randrange(32) for _ in range(L)]
+            if prog and rng.random() < 0.5:
+                prog[-1] = rng.choice((0, 0, 16, 8, 4))
+            if rng.random() < 0.3:
+                prog = prog + [0]
+            y = refs.bech32_encode(ver, prog)
+            evals += compare(name, mod, ref, t, y, viols, stats)
+            evals += compare(name, mod, ref, t, y.upper(), viols, stats)
+            counters['constructed_addresses'] += 1
+        for _ in range(200 if tier == 'quick' else 3000):
+            vb = rng.choice((0, 0, 5, 5, 1, 111, 128, 255))
+            n = rng.choice((20, 20, 20, 19, 21, 0, 32))
+            y = refs.base58check_encode(bytes([vb]) + bytes(rng.randrange(256) for _ in range(n)))
+            evals += compare(name, mod, ref, t, y, viols, stats)
+            counters['constructed_addresses'] += 1
     # random strings over the alphabet, every length
     for L in range(0, refs.MAXLEN[name] + 3):
         for _ in range(20 if tier == 'quick' else 400):
@@ -222,7 +282,7 @@ def sweep_work(shard, tier, viols, stats, counters):
 def work(shard, tier):
     viols = {}
     stats = {'keys': set()}
-    counters = {'display_forms': 0, 'sweep_payloads': 0}
+    counters = {'display_forms': 0, 'sweep_payloads': 0, 'presented_forms': 0, 'constructed_addresses': 0}
     if shard['kind'] == 'mod':
         evals = mod_work(shard['module'], tier, viols, stats, counters)
         sets = {'modules': [shard['module']]}
@@ -243,5 +303,8 @@ def finish(agg, tier):
 def replay(w):
     viols = {}
     name = w['module']
+    if w.get('presented'):
+        compare_presented(name, C.get_module(name), refs.REFS[name], tables(), w['s'], viols, {'keys': set()})
+        return list(viols.values())
     compare(name, C.get_module(name), refs.REFS[name], tables(), w['s'], viols, {'keys': set()}, display=w.get('display', False))
     return list(viols.values())
